@@ -5,9 +5,11 @@ package main
 // packager tag, compression settings, payload sizes.
 
 import (
+	"bytes"
 	"fmt"
 	"math/rand"
 	"path/filepath"
+	"strings"
 )
 
 func baseCfg(name string) *Cfg {
@@ -29,6 +31,9 @@ func smallTree() []Node {
 		mk("src/empty", 0o644, ""),
 		{P: "src/sub", Kind: "dir", Mode: 0o775, Mt: 1500000001},
 		mk("src/sub/data.txt", 0o666, "data\n"),
+		{P: "src/sub/nested", Kind: "dir", Mode: 0o770, Mt: 1500000003},
+		mk("src/sub/nested/deep.txt", 0o640, "deep\n"),
+		{P: "src/sub/lnk", Kind: "link", Mode: 0o777, Link: "./nested/../data.txt", Tk: "file"},
 	}
 }
 
@@ -127,6 +132,23 @@ func systematicPkgCases(id *int, profile, scratch string, rng *rand.Rand, tier s
 			c.IpkPredepends = []string{"ipre1"}
 			add(c, smallTree(), "rel")
 		}
+		// changelog notes with several lines; upper-case prerelease; metadata containing a dash
+		{
+			c := baseCfg("chlogpkg")
+			c.Changelog = []ChEntry{{"1.2.3", 1500000000, "Jane Doe <jane@example.org>", []string{"first line\nsecond line of the same note\nthird", "single"}}}
+			add(c, smallTree(), "changelog-multiline")
+		}
+		for _, v := range []string{"1.2.3-RC.1+Build.7", "1.2.3+git-0a1b2c3", "V1.2.3-rc1", "1.2.3-Beta"} {
+			c := baseCfg("casepkg")
+			c.Version = v
+			add(c, smallTree(), "version-case")
+		}
+		{
+			c := baseCfg("metapkg")
+			c.Metadata = "git-0a1b2c3"
+			c.Prerelease = "RC-2"
+			add(c, smallTree(), "version-case")
+		}
 		// platform other than linux (deb prefixes the architecture)
 		{
 			c := baseCfg("platpkg")
@@ -153,6 +175,30 @@ func systematicPkgCases(id *int, profile, scratch string, rng *rand.Rand, tier s
 			nodes := append(smallTree(), addScripts(rng, c, slots)...)
 			c.Entries = []Entry{plain}
 			add(c, nodes, "slots")
+		}
+		// block-aligned and empty scripts (the last member of a cut tar segment ends exactly on a block boundary)
+		for _, size := range []int{0, 512, 1024, 511, 513} {
+			for _, slots := range [][]string{{"preinstall"}, {"postinstall", "preremove"}, {"preinstall", "apk.preupgrade", "archlinux.postupgrade", "deb.templates", "rpm.verify"}} {
+				c := baseCfg("alignpkg")
+				nodes := append(smallTree(), addScripts(rng, c, slots)...)
+				for i := range nodes {
+					if strings.HasPrefix(nodes[i].P, "scripts/") && nodes[i].Kind == "file" {
+						b := bytes.Repeat([]byte("#"), size)
+						if size > 2 {
+							copy(b, "#!/bin/sh\n")
+							b[size-1] = '\n'
+						}
+						nodes[i].data, nodes[i].Size, nodes[i].Cid = b, size, cidOf(b)
+						for slot, pth := range c.Scripts {
+							if pth == nodes[i].P {
+								c.ScriptCid[slot] = cidOf(b)
+							}
+						}
+					}
+				}
+				c.Entries = []Entry{plain}
+				add(c, nodes, "aligned-scripts")
+			}
 		}
 	case "payload":
 		// every (entry type x packager tag), alone next to a plain file
@@ -212,6 +258,45 @@ func systematicPkgCases(id *int, profile, scratch string, rng *rand.Rand, tier s
 				add(c, smallTree(), "symlink")
 			}
 		}
+		// a file placed beneath a directory of a tree that is listed AFTER it (the tree's directory replaces the implied one),
+		// and the other order
+		for _, order := range []int{0, 1} {
+			c := baseCfg("overlappkg")
+			f := Entry{Type: "file", Src: "src/app.conf", Dst: "/opt/overlap/nested/extra.conf"}
+			t := Entry{Type: "tree", Src: "src/sub", Dst: "/opt/overlap", Fi: Fi{Owner: "app", Group: "app"}, HasFi: true}
+			if order == 0 {
+				c.Entries = []Entry{f, t}
+			} else {
+				c.Entries = []Entry{t, f}
+			}
+			add(c, smallTree(), "tree-overlap")
+		}
+		// trees into directories the distribution owns
+		for _, d := range []string{"/usr", "/etc", "/usr/share"} {
+			c := baseCfg("fstreepkg")
+			c.Entries = []Entry{{Type: "tree", Src: "src/sub", Dst: d, Fi: Fi{Owner: "app", Group: "app"}, HasFi: true}}
+			add(c, smallTree(), "tree-fsowned")
+		}
+		// typed entries with expand: true (no reference in the values: nothing may change, least of all the type)
+		for _, ty := range []string{"config", "config|noreplace", "config|missingok", "ghost", "doc", "symlink", "dir"} {
+			c := baseCfg("expandpkg")
+			e := Entry{Type: ty, Src: "src/app.conf", Dst: "/etc/expandpkg/item", Expand: true}
+			switch ty {
+			case "ghost", "dir":
+				e.Src = ""
+			case "symlink":
+				e.Src = "/usr/bin/tool"
+			}
+			c.Entries = []Entry{plain, e}
+			add(c, smallTree(), "expand-typed")
+		}
+		// top-level names that sort before ".PKGINFO"; a symlink to an existing non-empty file followed by more members
+		{
+			c := baseCfg("toppkg")
+			c.Entries = []Entry{{Type: "file", Src: "src/app.conf", Dst: "/.hidden-top"}, {Type: "file", Src: "src/app.conf", Dst: "/+plus"},
+				{Type: "symlink", Src: "/etc/hostname", Dst: "/opt/a-link"}, {Type: "file", Src: "src/bin", Dst: "/opt/z-after-link"}, plain}
+			add(c, smallTree(), "top-level")
+		}
 		// explicit special bits, every umask
 		for _, um := range []int{0, 0o02, 0o22, 0o27, 0o77} {
 			c := baseCfg("modepkg")
@@ -223,6 +308,11 @@ func systematicPkgCases(id *int, profile, scratch string, rng *rand.Rand, tier s
 				{Type: "file", Src: "src/sub/data.txt", Dst: "/usr/share/modepkg/data.txt"},
 				{Type: "file", Src: "src/extra.conf", Dst: "/usr/share/modepkg/extra.conf", Fi: Fi{Owner: "app"}},
 				{Type: "tree", Src: "src/sub", Dst: "/usr/share/modepkg/tree"},
+				{Type: "file", Src: "src/bin", Dst: "/usr/bin/world-writable", Fi: Fi{Mode: 0o666}},
+				{Type: "file", Src: "src/bin", Dst: "/usr/bin/all-bits", Fi: Fi{Mode: 0o777}},
+				{Type: "config", Src: "src/app.conf", Dst: "/etc/modepkg/group-writable.conf", Fi: Fi{Mode: 0o664}},
+				{Type: "ghost", Dst: "/var/log/modepkg.log"},
+				{Type: "ghost", Dst: "/var/log/modepkg-declared.log", Fi: Fi{Mode: 0o600}},
 			}
 			add(c, smallTree(), "modes")
 		}
